@@ -79,6 +79,9 @@ use cgmath::*;
 use cgmath::num_traits::{self, NumCast, Float};
 use std::ops::*;
 use std::iter::{Sum, Product};
+// interpreted in place of the slice sorts of std (stable insertion sort, same generic signatures)
+pub fn __mirsum_sort_by<T, F: FnMut(&T, &T) -> std::cmp::Ordering>(s: &mut [T], mut f: F) { let n = s.len(); let mut i = 1; while i < n { let mut j = i; while j > 0 && f(&s[j], &s[j - 1]) == std::cmp::Ordering::Less { s.swap(j, j - 1); j -= 1; } i += 1; } }
+pub fn __mirsum_sort_by_key<T, K: Ord, F: FnMut(&T) -> K>(s: &mut [T], mut f: F) { let n = s.len(); let mut i = 1; while i < n { let mut j = i; while j > 0 && f(&s[j]) < f(&s[j - 1]) { s.swap(j, j - 1); j -= 1; } i += 1; } }
 '''
 
 
@@ -118,7 +121,7 @@ def extract(tag, harness_src, features=(), extra_deps='', inventory=False, use_c
     if extra:
         features = tuple(features) + tuple(f for f in extra if f not in features)
     rh = _repo_hash()
-    key = hashlib.sha256(('%s|%s|%s|%s|%s|%s|%s|%s' % (rh, _engine_hash(), harness_src, ','.join(features), extra_deps, inventory, local, loop_bound)).encode()).hexdigest()[:24]
+    key = hashlib.sha256(('%s|%s|%s|%s|%s|%s|%s|%s' % (rh, _engine_hash(), LIB_HEAD + harness_src, ','.join(features), extra_deps, inventory, local, loop_bound)).encode()).hexdigest()[:24]
     cdir = os.path.join(CACHE, key)
     meta_path = os.path.join(cdir, 'meta.json')
     if use_cache and os.path.exists(meta_path) and os.environ.get('VERIF_NOCACHE') != '1':
